@@ -1,12 +1,12 @@
 package rig
 
 import (
-	"time"
 	"context"
 	"errors"
 	"fmt"
 	"sort"
 	"sync"
+	"time"
 
 	"github.com/attestantio/dirk/core"
 	receiverhandler "github.com/attestantio/dirk/services/api/grpc/handlers/receiver"
@@ -137,6 +137,9 @@ type ClusterOpts struct {
 	// OwnPassphrases gives every node a generation passphrase of its own ("gen-<id>"), known to its own unlocker only
 	// (as the documentation recommends for deployments).
 	OwnPassphrases bool
+	// PointStore routes every operation of every node's wallet store through verifhook.Point ("wstore.<op>"), which is a
+	// scheduling point under the explorer and nothing otherwise.
+	PointStore bool
 }
 
 // NewCluster builds the instances.
@@ -162,7 +165,7 @@ func NewCluster(o ClusterOpts) (*Cluster, error) {
 			genPass = fmt.Sprintf("gen-%d", id)
 			acctPasses = []string{genPass}
 		}
-		r, err := NewSignerRig(SignerOpts{GenPass: genPass, AcctPasses: acctPasses,
+		r, err := NewSignerRig(SignerOpts{GenPass: genPass, AcctPasses: acctPasses, PointStore: o.PointStore,
 			Wallets: []string{"Wallet 1"}, DistWallets: []string{DistWallet}, Permissions: perms, Full: true,
 			ProcessID: id, PeersMap: peersMap, Sender: &clusterSender{c: c, from: n}, GenTimeout: o.GenTimeout,
 			PeersWrap: func(p peers.Service) peers.Service { return &orderedPeers{Service: p, c: c, node: id} },
